@@ -232,7 +232,7 @@ impl<F: Float, L: Label + std::fmt::Debug> TreeNode<F, L> {
 
             // We keep a running total of the aggregate weight in the right split
             // to avoid having to sum over the hash map
-            let total_weight = parent_class_freq.values().sum::<f32>();
+            let total_weight = ordered_weights(&parent_class_freq).iter().sum::<f32>();
             let mut weight_on_right_side = total_weight;
             let mut weight_on_left_side = 0.0;
 
@@ -657,33 +657,39 @@ fn make_prediction<F: Float, L: Label>(
 /// classes have the same weight then the first class found with that
 /// frequency is returned.
 fn find_modal_class<L: Label>(class_freq: &HashMap<L, f32>) -> L {
-    // TODO: Refactor this with fold_first
-
-    let val = class_freq
-        .iter()
-        .fold(None, |acc, (idx, freq)| match acc {
-            None => Some((idx, freq)),
-            Some((_best_idx, best_freq)) => {
-                if best_freq > freq {
-                    acc
-                } else {
-                    Some((idx, freq))
-                }
+    // the result must not depend on the iteration order of the map: among equally frequent
+    // classes the smallest label wins
+    let mut best: Option<(&L, f32)> = None;
+    for (label, &freq) in class_freq.iter() {
+        best = match best {
+            Some((best_label, best_freq))
+                if best_freq > freq || (best_freq == freq && best_label < label) =>
+            {
+                Some((best_label, best_freq))
             }
-        })
-        .unwrap()
-        .0;
+            _ => Some((label, freq)),
+        };
+    }
 
-    (*val).clone()
+    best.unwrap().0.clone()
+}
+
+/// Class weights in the order of their labels, so that sums over them do not depend on the
+/// iteration order of the hash map
+fn ordered_weights<L: Label>(class_freq: &HashMap<L, f32>) -> Vec<f32> {
+    let mut entries = class_freq.iter().collect::<Vec<_>>();
+    entries.sort_by(|a, b| a.0.cmp(b.0));
+    entries.into_iter().map(|(_, w)| *w).collect()
 }
 
 /// Given the class frequencies calculates the gini impurity of the subset.
 fn gini_impurity<L: Label>(class_freq: &HashMap<L, f32>) -> f32 {
-    let n_samples = class_freq.values().sum::<f32>();
+    let weights = ordered_weights(class_freq);
+    let n_samples = weights.iter().sum::<f32>();
     assert!(n_samples > 0.0);
 
-    let purity = class_freq
-        .values()
+    let purity = weights
+        .iter()
         .map(|x| x / n_samples)
         .map(|x| x * x)
         .sum::<f32>();
@@ -693,11 +699,12 @@ fn gini_impurity<L: Label>(class_freq: &HashMap<L, f32>) -> f32 {
 
 /// Given the class frequencies calculates the entropy of the subset.
 fn entropy<L: Label>(class_freq: &HashMap<L, f32>) -> f32 {
-    let n_samples = class_freq.values().sum::<f32>();
+    let weights = ordered_weights(class_freq);
+    let n_samples = weights.iter().sum::<f32>();
     assert!(n_samples > 0.0);
 
-    class_freq
-        .values()
+    weights
+        .iter()
         .map(|x| x / n_samples)
         .map(|x| if x > 0.0 { -x * x.log2() } else { 0.0 })
         .sum()
